@@ -97,21 +97,23 @@ def coeff_free(expr):
 
 
 def range_ok(u):
-    """every factor's power of its scale, and the total, stay inside the normal double range:
-    outside it the scale of a re-parsed unit differs by overflow/underflow of an intermediate
-    product, which "up to rounding" does not cover"""
+    """every partial product of the factors' scale powers (in whatever order the parser
+    multiplies them), and the total, stay inside the normal double range: outside it the scale of
+    a re-parsed unit differs by overflow/underflow of an intermediate product, which "up to
+    rounding" does not cover"""
     try:
         c, rest = u.expr.as_coeff_Mul()
         if not (1e-290 < abs(u.base_value) < 1e290 or (u.base_value == 0 and c == 0)):
             return False
-        if c != 0 and not (1e-290 < abs(float(c)) < 1e290):
-            return False
+        logs = []
+        if c != 0:
+            logs.append(math.log10(abs(float(c))) if abs(float(c)) not in (0.0, math.inf) else 999.0)
         for b, p in rest.as_powers_dict().items():
             if isinstance(b, sympy.Symbol):
                 sc = abs(float(Unit(b, registry=u.registry).base_value))
-                if sc > 0 and abs(float(p) * math.log10(sc)) > 290:
-                    return False
-        return True
+                if sc > 0:
+                    logs.append(float(p) * math.log10(sc))
+        return sum(x for x in logs if x > 0) < 290 and sum(x for x in logs if x < 0) > -290
     except Exception:  # noqa: BLE001
         return False
 
